@@ -1,6 +1,6 @@
 """C19 timers: Timer, Watchdog (behind a real CSR bank), WaitTimer, timeline, PWM against reference
 counters written from the documentation of the classes (docstrings / CSR descriptions)."""
-from migen import Module, Signal, If
+from migen import Module, Signal
 
 from litex.soc.cores.timer import Timer
 from litex.soc.cores.watchdog import Watchdog
